@@ -4,7 +4,7 @@ import core
 from core import hx, gen_mag, gen_words_len
 
 ID = "C19"
-READY = False
+READY = True
 ORACLE = "c19"
 HARNESS_BIN = "c19"
 NCASES = {"quick": 2600, "thorough": 40000}
@@ -14,20 +14,25 @@ CONFIGS = ["default", "release", "w32", "w32release", "nostd"]
 if os.environ.get("C19_CONFIGS"):       # sensitivity experiments only: a subset of the builds
     CONFIGS = os.environ["C19_CONFIGS"].split(",")
 
-LEVEL_TEXT = ("Machine-checked Coq theorems about the binary serde formats (postcard): the word->byte encoder of convert.rs, "
-              "modelled for an arbitrary WORD_BYTES = k, produces the shortest little-endian byte string of the VALUE (a function "
-              "that does not mention k) and the byte->word decoder returns the little-endian value for every k, so the encodings of "
-              "UBig/IBig and of the float/rational structs built from them are identical for 64- and 32-bit words; decode(encode x) = x "
-              "for integers, varints, zigzag exponents, floats and rationals; every byte string decodes to an error or to a canonical "
-              "value (lowest terms with positive denominator; normalised significand within the precision; the two infinities). "
-              "The value-level half (same mathematical result in every build) is tied by running one case file through five builds "
-              "of the harness (64/32-bit words x debug/release, no_std dashu-base), judging every answer against word-size-free "
-              "specifications and diffing the builds against each other; log2_bounds answers are judged as bounds in each build.")
-LEVEL_NOTE = ("Proved for all inputs: the wire-format theorems of coq/props/C19.v. Only compared (run, not proved here): that the "
-              "arithmetic kernels of the 32-bit build compute the same values (the L0/L1 theorems of C01/C02/C09 are stated for an "
-              "arbitrary word size and cited, not re-proved); exp/ln/powi answers are only diffed between the builds; the text "
-              "(serde_json) forms are checked by round trip and canonical-value tests, their grammar belongs to C07/C08. "
-              "force_bits=\"16\" does not compile on this host and is not exercised.")
+LEVEL_TEXT = ("Machine-checked Coq theorems (42, coq/props/C19.v) about the binary serde formats carried by postcard: the word->byte "
+              "encoder of convert.rs, modelled for an arbitrary WORD_BYTES = k, writes the shortest little-endian byte string of the "
+              "VALUE (a function that does not mention k) and the byte->word decoder returns the little-endian value for every k, so "
+              "the encodings of UBig/IBig - and of the float/rational structs built from them - are identical for 64-, 32- and 16-bit "
+              "words; decode(encode x) = x for integers, varints, zigzag exponents, canonical floats and rationals; every byte string "
+              "(whole input, no size bound) is rejected or decoded to a canonical value (lowest terms with a positive denominator; "
+              "normalised significand within the precision; the two infinities) and the decoders never panic. Word-size independence "
+              "of the integer kernels is stated as corollaries of the C01/C09 theorems (multiply with the source thresholds, "
+              "add_in_place, trailing_zeros), which hold for any word size. The value-level half (same result in every build) is tied "
+              "by running one case file through five builds of the harness (64/32-bit words x debug/release, no_std dashu-base), "
+              "judging every answer against word-size-free specifications and diffing the builds against each other; log2_bounds "
+              "answers are judged as bounds in each build.")
+LEVEL_NOTE = ("Proved for all inputs: the wire-format theorems, the word-size corollaries, the properties of the word-size-free "
+              "specifications (Euclid/truncated division, modular power, root/log certificates unique). Only compared by the run, not "
+              "proved here: that every other kernel of the 32-bit build computes the same values; exp/ln/powi, RBig->f64 and FBig->f64 "
+              "answers are only diffed between the builds (verdict 'undecided' from the oracle, violation on any difference); the text "
+              "(serde_json) forms are checked by round trip and canonical-value tests, their grammar belongs to C07/C08. One open "
+              "finding (F06, debug assertion of into_f64_internal, shared with C06) is modelled as-is and excluded from the diff by an "
+              "exact class flag read through the public API. force_bits=\"16\" does not compile on this host and is not exercised.")
 TECHNIQUE = "Coq proof of the wire formats for arbitrary word size + five-configuration correspondence run against extracted specifications"
 RULE = ("cases = operation x operands: integers from word-count classes {0,1,2,3,4,5,8,T-1,T,T+1 for the size thresholds, counted in "
         "64-bit AND in 32-bit words} x bit patterns x signs for arithmetic/division/bit/radix/byte/gcd/root/log/modular operations; "
